@@ -21,7 +21,7 @@ RULE = ("case = DCOP description; non-trivial = >=3 variables, a constraint of a
         "same scope, and >=1 isolated or unary-only variable or >=5 variables; distinct by sha1(case)")
 ASSUMPTIONS = ["variable and constraint names are distinct identifiers"]
 BUDGET = {"quick": {"workers": 8, "examples": 900, "seconds": 40},
-          "thorough": {"workers": 16, "examples": 5000, "seconds": 400}}
+          "thorough": {"workers": 16, "examples": 15000, "seconds": 450}}
 
 
 @st.composite
